@@ -36,10 +36,12 @@ TARGETS = {
     "get_piece_length": ("torrentfile/utils.py", {"size": "int"}),
     "next_power_2": ("torrentfile/utils.py", {"value": "int"}),
     "merkle_root": ("torrentfile/hasher.py", {"blocks": "lbytes"}),
+    # `str` values are rendered as their UTF-8 bytes, as in the hand-written path models
+    "safe_join": ("torrentfile/rebuild.py", {"dest": "str", "relpath": "str"}),
 }
 
-LEAN_TY = {"int": "Int", "bool": "Bool", "bytes": "List UInt8", "lbytes": "List (List UInt8)"}
-WRAP = {"int": "Py.Val.int", "bool": "Py.Val.bool", "bytes": "Py.Val.bytes",
+LEAN_TY = {"str": "List UInt8", "int": "Int", "bool": "Bool", "bytes": "List UInt8", "lbytes": "List (List UInt8)"}
+WRAP = {"str": "Py.Val.bytes", "none": "Py.Val.none", "int": "Py.Val.int", "bool": "Py.Val.bool", "bytes": "Py.Val.bytes",
         "lbytes": "Py.Val.blist"}
 
 
@@ -60,6 +62,7 @@ class Fn:
         if set(self.params) != set(ptypes):
             _bad(node, "parameters differ from the specialisation")
         self.loops = []                  # emitted auxiliary definitions
+        self.uses_path = False
         self.uses_hash = False
         self.spec = dict(ptypes)
 
@@ -70,6 +73,8 @@ class Fn:
             return ("true" if e.value else "false"), "bool"
         if isinstance(e, ast.Constant) and isinstance(e.value, int):
             return f"({e.value} : Int)", "int"
+        if isinstance(e, ast.Constant) and isinstance(e.value, str):
+            return "([" + ", ".join(str(b) for b in e.value.encode("utf8")) + "] : List UInt8)", "str"
         if isinstance(e, ast.Name):
             if e.id not in self.env:
                 _bad(e, "unknown name")
@@ -107,7 +112,14 @@ class Fn:
         if isinstance(e, ast.Call):
             return self.call(e)
         if isinstance(e, ast.Subscript):
-            _bad(e, "subscript outside `return l[0]`")
+            sl = e.slice
+            if (isinstance(sl, ast.Slice) and sl.upper is None and sl.step is None
+                    and isinstance(sl.lower, ast.Constant) and isinstance(sl.lower.value, int)
+                    and sl.lower.value >= 0):
+                a, ta = self.expr(e.value)
+                if ta in ("str", "bytes"):
+                    return f"(({a}).drop {sl.lower.value})", ta
+            _bad(e, "subscript outside `return l[0]` and `s[k:]`")
         if isinstance(e, ast.ListComp):
             return self.listcomp(e)
         _bad(e, "expression not supported")
@@ -125,7 +137,7 @@ class Fn:
             return txt
         if ty == "int":
             return f"(decide ({txt} ≠ 0))"
-        if ty in ("bytes", "lbytes"):
+        if ty in ("bytes", "lbytes", "str"):
             return f"(!({txt}).isEmpty)"
         _bad(e, "truth value of this type")
 
@@ -147,6 +159,9 @@ class Fn:
                 _bad(e, "comparison not supported")
             a, ta = self.expr(l)
             b, tb = self.expr(r)
+            if ta == tb == "str" and type(op) in (ast.Eq, ast.NotEq):
+                out.append(f"decide ({a} {sym[type(op)]} {b})")
+                continue
             if ta != "int" or tb != "int":
                 _bad(e, "comparison of non-integers")
             out.append(f"decide ({a} {sym[type(op)]} {b})")
@@ -165,9 +180,33 @@ class Fn:
                 # decided by the specialisation; only for a parameter not yet reassigned
                 if x.id in self.reassigned:
                     _bad(e, "isinstance of a reassigned parameter")
-                have = {"int": "int", "lbytes": "list"}[self.spec[x.id]]
+                have = {"int": "int", "lbytes": "list", "str": "str"}[self.spec[x.id]]
                 return ("true" if t.id == have else "false"), "bool"
             _bad(e, "isinstance not decidable from the specialisation")
+        if isinstance(f, ast.Name) and f.id == "str" and len(e.args) == 1:
+            a, ta = self.expr(e.args[0])
+            if ta != "str":
+                _bad(e, "str() of a non-string")
+            return a, "str"
+        if (isinstance(f, ast.Attribute) and f.attr == "startswith" and len(e.args) == 1
+                and isinstance(e.args[0], ast.Constant) and isinstance(e.args[0].value, str)):
+            a, ta = self.expr(f.value)
+            lit, _ = self.expr(e.args[0])
+            if ta != "str":
+                _bad(e, "startswith on a non-string")
+            n = len(e.args[0].value.encode("utf8"))
+            return f"(decide (({a}).take {n} = {lit}))", "bool"
+        # os.path.<fn>: the modelled library functions (Model/Path.lean, trusted + sampled)
+        if (isinstance(f, ast.Attribute) and isinstance(f.value, ast.Attribute)
+                and isinstance(f.value.value, ast.Name) and f.value.value.id == "os"
+                and f.value.attr == "path"):
+            self.uses_path = True
+            args = [self.expr(a) for a in e.args]
+            if f.attr == "abspath" and [t for _, t in args] == ["str"]:
+                return f"(TorrentVerif.PosixPath.abspath {args[0][0]})", "str"
+            if f.attr == "join" and [t for _, t in args] == ["str", "str"]:
+                return f"(TorrentVerif.PosixPath.join {args[0][0]} {args[1][0]})", "str"
+            _bad(e, "os.path function not modelled here (commonpath only as `if commonpath([a, b]) != c`)")
         # sha256(<bytes>).digest()
         if (isinstance(f, ast.Attribute) and f.attr == "digest" and not e.args
                 and isinstance(f.value, ast.Call) and isinstance(f.value.func, ast.Name)
@@ -285,6 +324,8 @@ class Fn:
                     _bad(s, "index into a non-list")
                 return pad + wrap(f"match ({src}).head? with | some v => Except.ok (Py.Val.bytes v) "
                                   f"| none => Except.error \"IndexError\"")
+            if v is None or (isinstance(v, ast.Constant) and v.value is None):
+                return pad + wrap("Except.ok Py.Val.none")
             txt, ty = self.expr(v)
             return pad + wrap(f"Except.ok ({WRAP[ty]} {txt})")
         if isinstance(s, ast.Raise):
@@ -297,6 +338,44 @@ class Fn:
                 _bad(s, "raise form")
             t = f"Except.error \"{name}\""
             return pad + (f"some ({t})" if opt else t)
+        if isinstance(s, ast.If) and self.fallible(s.test):
+            t = s.test
+            if isinstance(t, ast.BoolOp):
+                # short-circuit evaluation made explicit, so that a call that can raise is
+                # only evaluated when Python evaluates it
+                first, others = t.values[0], t.values[1:]
+                later = others[0] if len(others) == 1 else ast.BoolOp(op=t.op, values=others)
+                if isinstance(t.op, ast.Or):
+                    new = ast.If(test=first, body=s.body,
+                                 orelse=[ast.If(test=later, body=s.body, orelse=s.orelse)])
+                else:
+                    new = ast.If(test=first,
+                                 body=[ast.If(test=later, body=s.body, orelse=s.orelse)],
+                                 orelse=s.orelse)
+                return self.block([ast.copy_location(new, s)] + rest, ind, opt, tail)
+            # commonpath([a, b]) ==/!= c
+            ok = (isinstance(t, ast.Compare) and len(t.ops) == 1
+                  and isinstance(t.ops[0], (ast.Eq, ast.NotEq)) and self.is_commonpath(t.left)
+                  and not self.fallible(t.comparators[0]))
+            if not ok:
+                _bad(s, "a call that can raise is only understood as `commonpath([a, b]) ==/!= c`")
+            la, lb = t.left.args[0].elts
+            a, ta = self.expr(la)
+            b, tb = self.expr(lb)
+            c, tc = self.expr(t.comparators[0])
+            if (ta, tb, tc) != ("str", "str", "str"):
+                _bad(s, "commonpath of non-strings")
+            self.uses_path = True
+            sym = "=" if isinstance(t.ops[0], ast.Eq) else "≠"
+            wrap = (lambda x: f"some ({x})") if opt else (lambda x: x)
+            saved_env, saved_re = dict(self.env), set(self.reassigned)
+            then_rest = [] if self.terminates(s.body) else rest
+            x = self.block(s.body + then_rest, ind + 2, opt, tail)
+            self.env, self.reassigned = dict(saved_env), set(saved_re)
+            y = self.block(s.orelse + rest, ind + 2, opt, tail)
+            return (f"{pad}match TorrentVerif.PosixPath.commonpath {a} {b} with\n"
+                    f"{pad}| none => {wrap('Except.error \"ValueError\"')}\n"
+                    f"{pad}| some cp__ =>\n{pad}  if decide (cp__ {sym} {c}) then\n{x}\n{pad}  else\n{y}")
         if isinstance(s, ast.If):
             cond = self.test(s.test)
             if cond == "true":
@@ -368,6 +447,16 @@ class Fn:
         out += f"def {self.name} {hparam}{fuel}{params} : {ret} :=\n{text}\n"
         return out
 
+    def is_commonpath(self, e):
+        return (isinstance(e, ast.Call) and isinstance(e.func, ast.Attribute)
+                and e.func.attr == "commonpath" and isinstance(e.func.value, ast.Attribute)
+                and e.func.value.attr == "path" and len(e.args) == 1
+                and isinstance(e.args[0], ast.List) and len(e.args[0].elts) == 2)
+
+    def fallible(self, e):
+        return any(isinstance(n, ast.Call) and isinstance(n.func, ast.Attribute)
+                   and n.func.attr == "commonpath" for n in ast.walk(e))
+
     def prune_try(self, body):
         """A `try` is only accepted inside a branch the specialisation removes."""
         return body
@@ -400,6 +489,7 @@ PROPS_OF = {
     "get_piece_length": ["C12"],
     "next_power_2": ["C02", "C10"],
     "merkle_root": ["C02", "C10"],
+    "safe_join": ["C19"],
 }
 
 
@@ -408,8 +498,12 @@ def translate_one(fn, repo=None):
     rel, ptypes = TARGETS[fn]
     node = source_of(fn, rel, repo)
     digest = hashlib.sha256(ast.unparse(node).encode()).hexdigest()[:16]
-    body = Fn(fn, node, ptypes).translate()
-    return HEADER.format(fn=fn, rel=rel, line=node.lineno, digest=digest, body=body), digest
+    tr = Fn(fn, node, ptypes)
+    body = tr.translate()
+    text = HEADER.format(fn=fn, rel=rel, line=node.lineno, digest=digest, body=body)
+    if tr.uses_path:
+        text = text.replace("import Gen.Prelude\n", "import Gen.Prelude\nimport TorrentVerif.Model.Path\n")
+    return text, digest
 
 
 if __name__ == "__main__":
